@@ -871,25 +871,24 @@ func c04R10(c *Ctx) {
 	}
 	n := 0
 	for _, s := range p.StoresTo(p.FuncsInPkg(daemonPkg), fld) {
-		if s.RHS == nil || s.InLit {
+		if s.InLit && s.RHS == nil {
 			continue
 		}
-		fn := s.Fn
-		info := fn.Info()
 		n++
 		var bad []string
-		var follow func(x ast.Expr, depth int)
-		follow = func(x ast.Expr, depth int) {
+		var follow func(fn *FuncInfo, x ast.Expr, depth int)
+		follow = func(fn *FuncInfo, x ast.Expr, depth int) {
+			info := fn.Info()
 			x = ast.Unparen(x)
 			if fieldOf(info, x) == src {
 				return
 			}
-			if o := identObj(info, x); o != nil && depth < 4 {
+			if o := identObj(info, x); o != nil && depth < 5 {
 				defs := 0
 				for _, d := range varDefs(fn, o) {
 					if d.rhs != nil {
 						defs++
-						follow(d.rhs, depth+1)
+						follow(fn, d.rhs, depth+1)
 					}
 				}
 				if defs > 0 {
@@ -898,7 +897,53 @@ func c04R10(c *Ctx) {
 			}
 			bad = append(bad, exprString(x))
 		}
-		follow(s.RHS, 0)
+		// result k of a module function: what each of its returns yields there
+		followResult := func(call *ast.CallExpr, info *types.Info, k int) {
+			callee := p.FuncOf(Callee(info, call))
+			if callee == nil || callee.Decl.Body == nil {
+				bad = append(bad, "result of "+exprString(call.Fun))
+				return
+			}
+			for _, r := range declReturns(callee.Decl.Body) {
+				switch {
+				case k < len(r.Results):
+					follow(callee, r.Results[k], 1)
+				case len(r.Results) == 0 && callee.Decl.Type.Results != nil:
+					// named results
+					var names []*ast.Ident
+					for _, f := range callee.Decl.Type.Results.List {
+						names = append(names, f.Names...)
+					}
+					if k < len(names) {
+						follow(callee, names[k], 1)
+					} else {
+						bad = append(bad, "bare return")
+					}
+				default:
+					bad = append(bad, "return "+exprString2(r))
+				}
+			}
+		}
+		fn := s.Fn
+		if s.RHS != nil {
+			follow(fn, s.RHS, 0)
+		} else if as, ok := s.Node.(*ast.AssignStmt); ok && len(as.Rhs) == 1 {
+			// x, y, req.F = f(…)
+			call, isCall := ast.Unparen(as.Rhs[0]).(*ast.CallExpr)
+			k := -1
+			for i, l := range as.Lhs {
+				if l == s.LHS {
+					k = i
+				}
+			}
+			if isCall && k >= 0 {
+				followResult(call, fn.Info(), k)
+			} else {
+				bad = append(bad, exprString2(as))
+			}
+		} else {
+			bad = append(bad, "store form not recognised")
+		}
 		c.Check(len(bad) == 0, "C04.R10", fn.Key()+": the pinned interface is the record's", p.Pos(s.Node), fn.Key(), "every definition of the stored value is <item>.ENIID", "other values: "+strings.Join(bad, ", "))
 	}
 	c.Floor("C04.R10", "stores of LocalIPRequest.NetworkInterfaceID in the daemon", 1, n)
